@@ -234,9 +234,12 @@ func c17Judge(filter, in, out, param string) (verdict string, judged bool) {
 }
 
 type c17Runner struct {
-	tpls  map[string]*pongo2.Template
-	tpls2 map[string]*pongo2.Template // the same filter inside with / for / macro regions of an autoescape-off region
+	tpls    map[string]*pongo2.Template
+	tpls2   map[string]*pongo2.Template // the same filter inside with / for / macro regions of an autoescape-off region
+	safeTpl *pongo2.Template
 }
+
+const c17SafeSrc = "{{ v|safe }}" + c17Sep + "{% firstof v|safe \"\" %}" + c17Sep + "{% cycle v|safe v|safe as c %}" + c17Sep + "{% cycle c %}" + c17Sep + "{% cycle c %}"
 
 var errC17Writer = errors.New("c17: the caller's writer is broken")
 
@@ -269,13 +272,19 @@ func newC17Runner() (*c17Runner, error) {
 			fp = "removetags:p"
 		}
 		src2 := "{% autoescape off %}{% with q=1 %}{{ v|" + fp + " }}{% endwith %}" + c17Sep + "{% for i in one %}{{ v|" + fp + " }}{% endfor %}" + c17Sep +
-			"{% macro m(a, p) %}{{ a|" + fp + " }}{% endmacro %}{{ m(v, p) }}" + c17Sep + "{% filter " + fp + " %}{{ v }}{% endfilter %}{% endautoescape %}"
+			"{% macro m(a, p) %}{{ a|" + fp + " }}{% endmacro %}{{ m(v, p) }}" + c17Sep + "{% filter " + fp + " %}{{ v }}{% endfilter %}" + c17Sep +
+			"{% macro id(a) %}{{ a }}{% endmacro %}{{ id(v)|" + fp + " }}" + c17Sep + "{% set sv = id(v) %}{{ sv|" + fp + " }}{% endautoescape %}"
 		t2, err := set.FromString(src2)
 		if err != nil {
 			return nil, fmt.Errorf("%s: %v", src2, err)
 		}
 		r.tpls2[f] = t2
 	}
+	st, err := set.FromString(c17SafeSrc)
+	if err != nil {
+		return nil, fmt.Errorf("%s: %v", c17SafeSrc, err)
+	}
+	r.safeTpl = st
 	return r, nil
 }
 
@@ -325,9 +334,25 @@ func (r *c17Runner) checkP(c *C, filter, in, pstr string) bool {
 		// the filter inside regions that run in child contexts of an autoescape-off region, and as a filter tag
 		t2, xerr2 := r.tpls2[filter].Execute(pongo2.Context{"v": in, "p": pstr, "one": []int{1}})
 		c.Eval(1)
-		if want := out + c17Sep + out + c17Sep + out + c17Sep + out; xerr2 != nil || t2 != want {
-			c.Fail("routes-disagree", D{"filter": filter, "input": q(in), "ApplyFilter": q(out), "with|for|macro|filter-tag under autoescape off": q(t2), "template_err": errStr(xerr2)})
+		if want := out + c17Sep + out + c17Sep + out + c17Sep + out + c17Sep + out + c17Sep + out; xerr2 != nil || t2 != want {
+			c.Fail("routes-disagree", D{"filter": filter, "input": q(in), "ApplyFilter": q(out), "with|for|macro|filter-tag|macro-result|set-macro-result under autoescape off": q(t2), "template_err": errStr(xerr2)})
 			return false
+		}
+		// a value that Go code (or the engine: macro results, block.Super) marked safe is filtered like any other
+		if sv, serr := pongo2.ApplyFilter(filter, pongo2.AsSafeValue(in), param); serr != nil || sv.String() != out {
+			so := ""
+			if sv != nil {
+				so = sv.String()
+			}
+			c.Fail("promise-broken", D{"filter": filter, "input": q(in), "output_for_AsSafeValue": q(so), "output_for_AsValue": q(out), "why": "the filter treats a value marked safe differently"})
+			return false
+		}
+		if filter == "safe" {
+			// under autoescape ON: safe on the arguments of the printing tags leaves the text as it is
+			if st, serr := r.safeTpl.Execute(pongo2.Context{"v": in}); serr != nil || st != in+c17Sep+in+c17Sep+in+c17Sep+in+c17Sep+in {
+				c.Fail("promise-broken", D{"filter": "safe", "input": q(in), "template": c17SafeSrc, "output": q(st), "error": errStr(serr), "why": "safe returns its input unchanged: {{ v|safe }}, firstof, cycle and a named cycle advanced by name print v as it is"})
+				return false
+			}
 		}
 		// values that are not strings but print as text (a string-kinded Stringer, a pointer-receiver Stringer):
 		// the filter works on the printed form
